@@ -105,6 +105,12 @@ Theorem C04_malformed : forall dok st can st', fp_step dok st can = (st', Raise)
 Proof. exact raise_harmless. Qed.
 Print Assumptions C04_malformed.
 
+(* the dictionary key f"{pgn}_{src}_{dest}" (as ASCII codes of Python's str of each int, joined by '_') is
+   injective on integers, so keying the model's records by the triple is faithful *)
+Theorem C04_key : forall k k', key_string k = key_string k' -> k = k'.
+Proof. exact key_string_inj. Qed.
+Print Assumptions C04_key.
+
 (* the code before fixes/F-pad.patch is NOT padding independent *)
 Theorem C04_unrepaired_refuted :
   run_unrepaired (fun _ => true) None [[64; 10; 1; 2; 3; 4; 5; 6]; [65; 7; 8; 9; 10; 255; 255; 255]]
